@@ -38,16 +38,16 @@ PROPS = {
         'Theorems quantify over all byte strings, default fields and oracles. The correspondence check ties the model to /repo on every run; PANIC and HANG (watchdog) are observables.',
         ['oracle record answers as Go stdlib (served by the Go helper, sampled by the run)', 'Go runtime stack exhaustion beyond ~10^5 nesting is outside the model']),
     'C02': P(
-        ['C02_string_value_stays_in_its_literal', 'C02_field_name_is_one_identifier', 'C02_fragment_sql_is_one_confined_expression', 'C02_rendered_fragment_sql_is_one_confined_expression', 'C02_fragment_columns_and_constants_come_from_the_query'],
+        ['C02_string_value_stays_in_its_literal', 'C02_field_name_is_one_identifier', 'C02_fragment_sql_is_one_confined_expression', 'C02_rendered_fragment_sql_is_one_confined_expression', 'C02_fragment_columns_and_constants_come_from_the_query', 'C02_rendered_parameterized_sql_is_one_confined_expression'],
         [('corpus', 0), ('rand', 5000), ('quote', 2500), ('inject', 2500), ('scale-list', 0), ('scale-names', 0), ('scale-values', 0), ('scale-digits', 0), ('pairs', 0)],
         [('corpus', 0), ('rand', 60000), ('quote', 30000), ('inject', 30000), ('enum', 5000), ('scale-list', 0), ('scale-names', 0), ('scale-values', 0), ('scale-digits', 0), ('pairs', 0)],
         PARSE + SQL + ['SqlToks'],
-        'partial: proved at scanner level (a string value is read back by the PostgreSQL scanner model as one constant equal to the value, for all byte strings; a field name as one quoted identifier) and at grammar level for the filterable fragment (for every tree of the fragment, any depth: the token sequence of its SQL - Spec/SqlFrag.tr, compared per case with the scanner model on the implementation text - is accepted by the PostgreSQL expression grammar as one expression built from allowed constructs only; and end to end: whenever the model Render returns a text for such a tree, scanner and grammar model read it as that one expression, whose column references are field names of the query and whose string constants are string values of the query). Outside the fragment (floats, string ranges, regular expressions, parameterized text) and for column/constant provenance the clause is decided by running the PostgreSQL model (coq/Model/PgModel.v, extracted) on every SQL text the implementation returns.',
+        'partial: proved at scanner level (a string value is read back by the PostgreSQL scanner model as one constant equal to the value, for all byte strings; a field name as one quoted identifier) and at grammar level for the filterable fragment (for every tree of the fragment, any depth: the token sequence of its SQL - Spec/SqlFrag.tr, compared per case with the scanner model on the implementation text - is accepted by the PostgreSQL expression grammar as one expression built from allowed constructs only; and end to end: whenever the model Render returns a text for such a tree, scanner and grammar model read it as that one expression, whose column references are field names of the query and whose string constants are string values of the query). The same end to end for the parameterized renderer: whenever RenderParam returns a text for a fragment tree, the scanner and grammar models read it (placeholders numbered) as one expression of allowed constructs whose columns are field names of the query and which holds no constant at all. Outside the fragment (floats, string ranges, regular expressions) the clause is decided by running the PostgreSQL model (coq/Model/PgModel.v, extracted) on every SQL text the implementation returns.',
         'every SQL text ToPostgres/ToParameterizedPostgres returns on generated queries (hostile field names and values: quotes, backslashes, semicolons, comment openers, NUL, invalid UTF-8, NaN/Inf, >63-byte names); non-trivial = rendering succeeded and the text was read by the PostgreSQL model',
         'C02_check: pg_read(sql) must succeed, be built from allowed nodes only, every column must be a field/default field of the query and every string constant a (translated) value of the query.',
         ['PgModel is a conservative model of scan.l/gram.y validated one-directionally against pg_query in design; not re-validated at run time']),
     'C03': P(
-        ['C03_pattern_translation_preserves_meaning', 'C03_grammar_reads_the_query_structure', 'C03_sql_true_on_exactly_the_rows_of_the_query', 'C03_rendered_sql_is_true_on_exactly_the_rows_of_the_query', 'C03_fragment_renders_and_selects_exactly_the_rows_of_the_query', 'C03_query_text_to_rows'],
+        ['C03_pattern_translation_preserves_meaning', 'C03_grammar_reads_the_query_structure', 'C03_sql_true_on_exactly_the_rows_of_the_query', 'C03_rendered_sql_is_true_on_exactly_the_rows_of_the_query', 'C03_fragment_renders_and_selects_exactly_the_rows_of_the_query', 'C03_query_text_to_rows', 'C03_sql_templates_are_read_from_the_source'],
         [('corpus', 0), ('sem', 1700), ('sem', 1700), ('sem', 1700), ('rand', 2000), ('scale-list', 0), ('scale-digits', 0), ('scale-values', 0), ('scale-names', 0), ('pairs', 0)],
         [('corpus', 0), ('sem', 20000), ('sem', 20000), ('sem', 20000), ('sem', 20000), ('rand', 20000), ('scale-list', 0), ('scale-digits', 0), ('scale-values', 0), ('scale-names', 0), ('pairs', 0)],
         PARSE + ['Render', 'ToPostgres', 'SqlToks'],
@@ -69,7 +69,7 @@ PROPS = {
         [('corpus', 0), ('trees', 8000), ('scale-list', 0), ('scale-chain', 0), ('scale-prefix', 0)],
         [('corpus', 0), ('trees', 120000), ('enum', 5000), ('scale-list', 0), ('scale-chain', 0), ('scale-prefix', 0)],
         PARSE,
-        'full: for every spec tree (any depth) with parentheses wherever the table requires them (and anywhere else) the parser loop accepts exactly the expected tree, Validate accepts it, and - for ASCII text whose leaf tokens lex to themselves - Parse of the printed text returns it. For non-ASCII leaves the lexer step is checked per case by the driver (generator printer = Spec.pr through the model lexer).',
+        'full: for every spec tree (any depth) with parentheses wherever the table requires them (and anywhere else) the parser loop accepts exactly the expected tree, Validate accepts it, and - for text of any bytes whose printed tokens are returned unchanged by the lexer when a blank follows (LexWsG.lexes_clean: words in any script, phrases with any bytes) - Parse of the printed text returns it. The lexer step is also checked per case by the driver (generator printer = Spec.pr through the model lexer).',
         'random spec trees to depth 3 (quick) / 5 (thorough), minimal and redundant parenthesisation, three spacing styles; the driver checks generator printer = Spec.pr and implementation tree = Spec.want',
         'precedence enters only through prec = index in the generated toktype_order.',
         []),
@@ -87,23 +87,23 @@ PROPS = {
         [('corpus', 0), ('juxt', 2000), ('scale-chain', 0), ('scale-prefix', 0)],
         [('corpus', 0), ('juxt', 40000), ('enum', 5000), ('scale-chain', 0), ('scale-prefix', 0)],
         PARSE,
-        'full: for all contexts pre, post and term tokens t1 t2, `pre t1 t2 post` and `pre t1 AND t2 post` give the same result - as final state of the parser loop, as result of parse_toks (loop + Validate), and as result of Parse on ASCII query text.',
+        'full: for all contexts pre, post and term tokens t1 t2, `pre t1 t2 post` and `pre t1 AND t2 post` give the same result - as final state of the parser loop, as result of parse_toks (loop + Validate), and as result of Parse on query text of any bytes (tokens that lex to themselves when a blank follows).',
         'pairs (all AND written / some AND nodes juxtaposed) of printed random trees, and pairs over arbitrary token sequences with two adjacent terminals; non-trivial = pair accepted',
         '', []),
     'C08': P(
-        ['C08_quoted_value_is_one_token', 'C08_quoted_value_tree', 'C08_quoted_value_inline_sql', 'C08_quoted_value_parameter', 'C08_sql_constant_decodes_to_the_value', 'C08_escaped_value_is_one_token', 'C08_escaped_value_tree', 'C08_escaped_spelling_loses_only_its_backslashes', 'C08_escaped_spelling_adds_no_wildcard'],
+        ['C08_quoted_value_is_one_token', 'C08_quoted_value_tree', 'C08_quoted_value_inline_sql', 'C08_quoted_value_parameter', 'C08_sql_constant_decodes_to_the_value', 'C08_escaped_value_is_one_token', 'C08_escaped_value_tree', 'C08_escaped_spelling_loses_only_its_backslashes', 'C08_escaped_spelling_adds_no_wildcard', 'C08_quoted_value_reaches_postgres_verbatim', 'C08_escaped_value_reaches_postgres_verbatim', 'C08_value_travels_as_parameter_verbatim', 'C08_quoted_text_to_rows', 'C08_quoted_text_to_parameter', 'C08_escaped_text_to_rows'],
         [('corpus', 0), ('quote', 6000), ('scale-values', 0)],
         [('corpus', 0), ('quote', 100000), ('scale-values', 0)],
         PARSE + SQL,
-        'quoting clause proved link by link for all texts w without a double quote: bytes -> tokens (lexer), tokens -> tree (parser loop + Validate: EQUALS(column, literal w)), tree -> inline SQL text (column = constant with doubled quotes) and -> parameter list ([w]), SQL constant -> value (PostgreSQL scanner model reads it back as w). Not proved: that the string-level doubling of Render and the byte-level one of the scanner lemma are the same function (both are checked per case), Escaping clause, ASCII: the escaped spelling (a backslash before every byte that is not a letter, digit or underscore) of any text is one Literal token carrying exactly those bytes; a Literal token whose text loses its backslashes to w, holds no star or question mark and does not read as a number gives EQUALS(column, literal w), w plain; the escaped spelling of a w without backslash, star and question mark meets those premises (with them it is known finding K7). Non-ASCII texts in the escaping clause are decided by C08_check per case.',
+        'quoting clause proved link by link for all texts w without a double quote: bytes -> tokens (lexer), tokens -> tree (parser loop + Validate: EQUALS(column, literal w)), tree -> inline SQL text (column = constant with doubled quotes) and -> parameter list ([w]), SQL constant -> value (PostgreSQL scanner model reads it back as w). The links are closed into end-to-end theorems with one quoting function on both sides: from the tokens, and from the query TEXT f:"w" handed to ToPostgres / ToParameterizedPostgres (lexer, parser, Validate, renderer, PostgreSQL scanner and grammar models), the comparison of column f with the constant w - resp. with parameter 1 bound to w - arrives and is true on exactly the rows of the query, for every byte string w without a double quote. Escaping clause, ASCII: the same end to end from the text f:esc(w); the escaped spelling (a backslash before every byte that is not a letter, digit or underscore) of any text is one Literal token carrying exactly those bytes; a Literal token whose text loses its backslashes to w, holds no star or question mark and does not read as a number gives EQUALS(column, literal w), w plain; the escaped spelling of a w without backslash, star and question mark meets those premises (with them it is known finding K7). Non-ASCII texts in the escaping clause are decided by C08_check per case.',
         'random texts over an alphabet of operators, keywords, digits, wildcards, slashes, backslashes, whitespace, quotes, non-ASCII; quoted and escaped spellings',
         '', ['oracle facts: double quote, colon and the four whitespace runes are not letters or digits']),
     'C09': P(
-        ['C09_keyword_case', 'C09_whitespace_same_tokens', 'C09_whitespace_same_parse', 'C09_redundant_parentheses', 'C09_redundant_parentheses_same_parse'],
+        ['C09_keyword_case', 'C09_whitespace_same_tokens', 'C09_whitespace_same_parse', 'C09_redundant_parentheses', 'C09_redundant_parentheses_same_parse', 'C09_whitespace_same_tokens_any_bytes', 'C09_whitespace_same_parse_any_bytes', 'C09_token_independent_of_what_follows'],
         [('corpus', 0), ('layout', 1500), ('scale-layout', 0), ('scale-chain', 0)],
         [('corpus', 0), ('layout', 30000), ('enum', 5000), ('scale-layout', 0), ('scale-chain', 0)],
         PARSE,
-        'whitespace clause proved for ASCII inputs (any change of the whitespace between and around tokens that removes no existing separator gives the same token stream, hence the same parse result; words ending in a dangling escape excluded = K14); keyword case: the token type of a word is invariant under ASCII letter case; redundant parentheses: two printed trees differing only in parenthesis nodes parse (parser loop + Validate) to the same tree. Not proved: whitespace for non-ASCII input (UTF-8 decoding across a changed boundary), parentheses in arbitrary accepted token sequences that are not printed trees (K15 lives there); both decided by C09_check on variant pairs.',
+        'whitespace clause proved for ALL byte strings, valid UTF-8 or not (any change of the whitespace between and around tokens that removes no existing separator gives the same token stream, hence the same parse result; words ending in a dangling escape excluded = K14); keyword case: the token type of a word is invariant under ASCII letter case; redundant parentheses: two printed trees differing only in parenthesis nodes parse (parser loop + Validate) to the same tree. The general theorem rests on a context theorem for one Next(): the decoder looks at most three bytes past a token and only to find a truncated sequence not continued; whitespace and the first byte of a proper token are never continuation bytes (oracle fact: U+FFFD is neither letter nor digit). Not proved: parentheses in arbitrary accepted token sequences that are not printed trees (K15 lives there); decided by C09_check on variant pairs.',
         'variant pairs (whitespace fillings incl. tabs/newlines/none, keyword case, redundant parentheses) of random trees and of arbitrary token sequences',
         '', []),
     'C10': P(
